@@ -27,19 +27,21 @@ func main() {
 		Finish()
 		return
 	}
-	switch suite {
-	case "c04":
-		runC04(r, *n)
-	case "c05pure":
-		runC05Pure(r, *n)
-	case "c05recv":
-		runC05Recv(r, *n)
-	default:
+	run, ok := suites[suite]
+	if !ok {
 		fmt.Fprintln(os.Stderr, "unknown suite", suite)
 		os.Exit(2)
 	}
+	run(r, *n)
 	Finish()
 }
+
+// suites: name -> generator run. Each harness file registers its suites in init().
+var suites = map[string]func(r *Rng, n int){}
+
+// lineOps: driver op -> function that executes the line's arguments against the real
+// code and returns the canonical real output and whether the property oracle held.
+var lineOps = map[string]func(args []string) (string, bool){}
 
 // replayLines: each line is a driver input line; it is executed against the real
 // code and emitted as a correspondence case (and through the suite's oracle).
@@ -58,22 +60,15 @@ func replayLines(path string) {
 			continue
 		}
 		parts := strings.Split(line, " ")
-		var o string
-		switch parts[0] {
-		case "hff", "ums", "umf", "exf", "exe", "ahf":
-			o = replayHeaderLine(parts[0], parts[1:])
-		case "pfr", "nsw":
-			var fine bool
-			o, fine = replayRecvLine(parts[0], parts[1:])
-			if !fine && !strings.HasPrefix(o, "panic") && o != "blocked" {
-				OracleFail("receiver "+parts[0]+" stopped serving", map[string]interface{}{"op": parts[0], "line": line, "got": o})
-			}
-		default:
-			o = "bad-op"
+		f, ok := lineOps[parts[0]]
+		if !ok {
+			Case(line, "bad-op")
+			continue
 		}
+		o, fine := f(parts[1:])
 		Case(line, o)
-		if (strings.HasPrefix(o, "panic") || o == "blocked") && parts[0] != "umf" {
-			OracleFail("receiver "+parts[0]+" "+o+" on a received byte sequence", map[string]interface{}{"op": parts[0], "line": line, "got": o})
+		if !fine {
+			OracleFail("replayed line violates the property oracle: "+parts[0]+" -> "+clip(o), map[string]interface{}{"op": parts[0], "line": line, "got": o})
 		}
 		Stat("evaluations")
 	}
